@@ -3,6 +3,9 @@ package checks
 import (
 	"errors"
 	"fmt"
+	bcrpb "github.com/google/fhir/go/proto/google/fhir/proto/r4/core/resources/bundle_and_contained_resource_go_proto"
+	ppb "github.com/google/fhir/go/proto/google/fhir/proto/r4/core/resources/patient_go_proto"
+	"github.com/verily-src/fhirpath-go/internal/containedresource"
 	"google.golang.org/protobuf/reflect/protoregistry"
 	"sort"
 	"strings"
@@ -543,6 +546,56 @@ func init() {
 							r.Fail("contained|"+op.name+"|resource-changed-although-error-returned", w)
 						case o.err == nil && string(jb) == string(ja) && !strings.HasPrefix(op.name, "Delete the inner resource's first extension"):
 							r.Fail("contained|"+op.name+"|reported-success-but-did-nothing", w)
+						}
+					}
+				}},
+				{Name: "absent-targets-over-mixed-entries", N: 1, Note: "Bundle entries of two resource types, one sparsely populated: Delete of every element name of either type that no entry carries succeeds without a change (both orders)", Run: func(_ int, r *core.Rec) {
+					obs := func() fhir.Resource { return lib.Observation() }
+					sparse := func() fhir.Resource { return &ppb.Patient{Id: fhir.ID("sparse"), Active: fhir.Boolean(true)} }
+					for oi, order := range [][]func() fhir.Resource{{obs, sparse}, {sparse, obs}} {
+						mk := func() *bcrpb.Bundle {
+							b := &bcrpb.Bundle{}
+							for _, f := range order {
+								b.Entry = append(b.Entry, &bcrpb.Bundle_Entry{Resource: containedresource.Wrap(f())})
+							}
+							return b
+						}
+						names := map[string]bool{}
+						ref := mk()
+						for _, e := range ref.Entry {
+							res := containedresource.Unwrap(e.Resource)
+							fs := res.ProtoReflect().Descriptor().Fields()
+							for k := 0; k < fs.Len(); k++ {
+								names[strings.TrimSuffix(fs.Get(k).JSONName(), "Value")] = true
+							}
+						}
+						for name := range names {
+							carried := false
+							for _, e := range ref.Entry {
+								rf := containedresource.Unwrap(e.Resource).ProtoReflect()
+								if fd := rf.Descriptor().Fields().ByJSONName(name); fd != nil && rf.Has(fd) {
+									carried = true
+								}
+							}
+							if carried || name == "contained" {
+								continue
+							}
+							b := mk()
+							path := "Bundle.entry.resource." + c02Ident(name)
+							o := c18Run(func() error { return patch.Delete(b, path) })
+							r.Eval()
+							r.State("absent-over-mixed-entries")
+							r.Nontrivial(fmt.Sprint(oi), path, fmt.Sprint(o.err))
+							w := core.W{"path": path, "entries": fmt.Sprintf("order %d", oi)}
+							switch {
+							case o.pi != nil:
+								r.Fail("delete|absent-over-mixed-entries|"+o.pi.Key(), w)
+							case o.err != nil:
+								w["err"] = o.err.Error()
+								r.Fail("delete|absent-over-mixed-entries|deleting-an-absent-element-fails", w)
+							case !proto.Equal(b, mk()):
+								r.Fail("delete|absent-over-mixed-entries|resource-changed", w)
+							}
 						}
 					}
 				}},
